@@ -9,7 +9,7 @@ git -C /repo worktree remove --force "$wt" 2>/dev/null; rm -rf "$wt"
 git -C /repo worktree add -q --detach "$wt" HEAD || exit 2
 cd "$wt"
 res=""
-cp "$src/$demo" "$dest/" || exit 2
+mkdir -p "$dest"; cp "$src/$demo" "$dest/" || exit 2
 if go test -vet=off -count=1 "$@" >/tmp/confirm-$id.without.log 2>&1; then res="$res demo-without=PASS"; else res="$res demo-without=FAIL(!)"; fi
 rm -f "$dest/$(basename "$demo")"
 git apply "$src/patch.diff" || { echo "patch does not apply"; exit 2; }
